@@ -78,7 +78,8 @@ func genInventory(r *vk.RNG, maxN int) []CSpec {
 // genSelector draws matchers over present and absent labels with values that probe exactness,
 // anchoring and "absent == empty".
 func genSelector(r *vk.RNG, inv []CSpec) []selMatcher {
-	labels := []string{"container", "container_name", "container_id", "container_image", "container_state", "nosuch", "absent_label"}
+	labels := []string{"container", "container_name", "container_id", "container_image", "container_state", "nosuch", "absent_label",
+		"container_image_id", "container_command", "container_created", "container_status"}
 	for _, k := range c02Keys {
 		_, sk := modelSanitise(k)
 		labels = append(labels, sk)
@@ -114,7 +115,22 @@ func genSelector(r *vk.RNG, inv []CSpec) []selMatcher {
 				v = base
 			}
 		} else {
-			switch r.Intn(9) {
+			switch r.Intn(12) {
+			case 9: // explicit anchors around an alternation: ^a|b$ is (^a)|(b$), still to be matched against the WHOLE value
+				o := vk.Pick(r, valuePool)
+				if len(base) > 1 && len(o) > 1 {
+					v = "^" + regexp.QuoteMeta(base[:len(base)-1]) + "|" + regexp.QuoteMeta(o[1:]) + "$"
+				} else {
+					v = "^" + regexp.QuoteMeta(base) + "|x$"
+				}
+			case 10: // explicit anchors around the exact value / a prefix
+				if r.Bool() || len(base) < 2 {
+					v = "^" + regexp.QuoteMeta(base) + "$"
+				} else {
+					v = "^" + regexp.QuoteMeta(base[:len(base)-1]) + "$"
+				}
+			case 11: // ends in an escaped dollar
+				v = "^" + regexp.QuoteMeta(base) + "\\$"
 			case 0:
 				v = regexp.QuoteMeta(base)
 			case 1: // prefix only: anchoring
@@ -331,7 +347,7 @@ func runC02(r *vk.Run) {
 					}
 					// no foreign Docker label
 					for k := range s.Labels {
-						if _, ok := exp[k]; !ok && !strings.HasPrefix(k, "container_") && k != "msg" {
+						if _, ok := exp[k]; !ok && k != "msg" {
 							detail["stream"] = s
 							c.Fail("", fmt.Sprintf("line %q carries label %q that its container does not have", e.Line, k), detail)
 							return
